@@ -34,6 +34,9 @@ def assigned_paths(stmts):
             elif isinstance(n, ast.Expr) and isinstance(n.value, ast.Call) and isinstance(n.value.func, ast.Attribute):
                 # method call on a name may mutate it (append, add_match ...)
                 targets = [n.value.func.value]
+            elif isinstance(n, ast.Expr) and isinstance(n.value, ast.Call) and isinstance(n.value.func, ast.Name) \
+                    and n.value.func.id == "print":
+                add("$nprinted", None)
             for t in targets:
                 stack = [t]
                 while stack:
@@ -210,6 +213,13 @@ class ExecS(Exec):
                 if h is None:
                     raise Unsupported(f"item assignment on {base.cls}")
                 self.assign(target.value, h(self, st, base, idx, v, node), st, node)
+            elif isinstance(base, ListV):
+                i = z3.simplify(zint(idx))
+                if not z3.is_int_value(i) or not all(z3.is_true(z3.simplify(g)) for g, _ in base.items):
+                    raise Unsupported("item assignment on a list with symbolic index/shape")
+                items = list(base.items)
+                items[i.as_long()] = (z3.BoolVal(True), v)
+                self.assign(target.value, ListV(items), st, node)
             elif isinstance(base, SeqV):
                 i = zint(idx)
                 self.oblige(f"index", "index", st, z3.And(0 <= i, i < base.n), node)
